@@ -28,9 +28,14 @@ def uniqueItemsErr : GoVal → Bool
   | .slice _ _ xs => hasDeepDup xs
   | _ => false
 
-/-- ASCII/Latin case folding is what the generators exercise; `strings.EqualFold` proper is an oracle -/
-def lowerByte (b : UInt8) : UInt8 := if b ≥ 65 && b ≤ 90 then b + 32 else b
-def foldEq (a b : List UInt8) : Bool := a.map lowerByte == b.map lowerByte
+/-- `strings.EqualFold`: rune by rune (an invalid byte decodes to U+FFFD, so two different invalid bytes fold equal),
+    under simple case folding. Modelled: ASCII and Latin-1 letters (what the generators exercise); simple folding of the
+    rest of Unicode is an oracle that is not modelled. -/
+def foldRune (r : Nat) : Nat :=
+  if 65 ≤ r && r ≤ 90 then r + 32
+  else if 0xC0 ≤ r && r ≤ 0xDE && r != 0xD7 then r + 32
+  else r
+def foldEq (a b : List UInt8) : Bool := (decodeRunes a).map foldRune == (decodeRunes b).map foldRune
 
 def strBytes : GoVal → Option (List UInt8)
   | .str s => some s | .named _ s => some s | _ => none
